@@ -68,6 +68,8 @@ class File:
         self.consts = {}     # name -> (type tokens, expr tokens)
         self.structs = {}    # name -> [(field, type tokens)]  (tuple structs: fields "0", "1", …)
         self.impls = []      # (trait or None, type name, {fn name: Fn}, {assoc const/type name: tokens})
+        self.impl_types = [] # parallel to impls: {associated type name: type tokens}
+        self.types = {}      # `type X = …;` aliases: name -> type tokens
         self.fns = {}
 
 def skip_attrs(toks, i):
@@ -159,7 +161,12 @@ def parse_fn(toks, i):
     ret = None
     if toks[j][1] == "->":
         k = j + 1
-        while toks[k][1] not in ("{", "where", ";"):
+        depth = 0
+        while not (depth == 0 and toks[k][1] in ("{", "where", ";")):
+            if toks[k][0] == "p" and toks[k][1] in ("[", "("):
+                depth += 1
+            elif toks[k][0] == "p" and toks[k][1] in ("]", ")"):
+                depth -= 1
             k += 1
         ret = toks[j + 1:k]
         j = k
@@ -190,12 +197,17 @@ def parse_items(toks, f=None):
             f.macros[name] = arms
         elif t in ("use", "extern", "type"):
             depth = 0
+            start = i
             while not (toks[i][1] == ";" and depth == 0):
                 if toks[i][0] == "p" and toks[i][1] in OPEN:
                     depth += 1
                 elif toks[i][0] == "p" and toks[i][1] in (")", "]", "}"):
                     depth -= 1
                 i += 1
+            if t == "type" and toks[start + 1][0] == "id":
+                eq = next((k for k in range(start, i) if toks[k][1] == "="), None)
+                if eq is not None and eq == start + 2:
+                    f.types[toks[start + 1][1]] = toks[eq + 1:i]
             i += 1
         elif t == "mod":
             if toks[i + 2][1] == ";":
@@ -290,6 +302,7 @@ def parse_items(toks, f=None):
             c = match_close(toks, j)
             inner = parse_items(toks[j + 1:c])
             f.impls.append((trait, ty, inner.fns, inner.consts))
+            f.impl_types.append(inner.types)
             i = c + 1
         elif t == "fn":
             fn, i = parse_fn(toks, i)
